@@ -95,6 +95,15 @@ pub fn special_images(v: &dyn Var, rng: &mut Rng) -> Vec<Vec<u8>> {
         a[n - 1] = x;
         out.push(a);
     }
+    // runs of seven equal bytes followed by a different one, at every alignment of the 8-byte groups
+    for shift in 0..8usize {
+        let (x, y) = (*rng.pick(&[0xffu8, 0x00, 0x3c, 0xa7]), rng.byte());
+        let mut a = image(v, rng);
+        for i in hdr..n {
+            a[i] = if (i + shift) % 8 == 7 { if y == x { !x } else { y } } else { x };
+        }
+        out.push(a);
+    }
     // uniform images (every byte the same) with unequal nibbles
     for x in [0x1bu8, 0xe4, 0x5a, 0x07, rng.byte()] {
         let mut u = vec![x; n];
@@ -138,6 +147,27 @@ fn recase(s: &[u8], rng: &mut Rng, how: u8) -> Vec<u8> {
 
 /// Texts with the same BYTE length as `canon` in which a multi-byte UTF-8 character straddles or
 /// sits at a given byte offset (a character sweep at fixed character count cannot produce these).
+/// A valid text wrapped in what a "helpful" front end might strip: byte-order marks, white space,
+/// line ends, NULs, quotes, radix prefixes, signs - with the junk added (another length) and with the
+/// junk replacing as many characters (the exact length kept).  All valid UTF-8.
+pub fn wrapped_forms(canon: &[u8]) -> Vec<Vec<u8>> {
+    let mut out = Vec::new();
+    let l = canon.len();
+    for junk in ["\u{feff}", " ", "\t", "\n", "\r\n", "\0", "\"", "'", "0x", "+", "\u{200b}", "\u{a0}"] {
+        let j = junk.as_bytes();
+        out.push([j, canon].concat());
+        out.push([canon, j].concat());
+        out.push([j, canon, j].concat());
+        if j.len() + 2 < l {
+            out.push([j, &canon[..l - j.len()]].concat());
+            out.push([&canon[..l - j.len()], j].concat());
+            out.push([&canon[..2], j, &canon[2 + j.len()..]].concat());
+        }
+    }
+    out.retain(|s| std::str::from_utf8(s).is_ok());
+    out
+}
+
 pub fn non_ascii_same_length(canon: &[u8]) -> Vec<Vec<u8>> {
     let mut out = Vec::new();
     let l = canon.len();
@@ -425,6 +455,15 @@ pub fn run_c04(out: &mut Out, rng: &mut Rng, thorough: bool, only: Option<&str>)
                 let base = rng.bytes(n);
                 emit_fmt_sweep(out, v, &base, pos);
             }
+            // one position swept over an otherwise UNIFORM value (run detection, lane-wise shortcuts)
+            let x = *rng.pick(&[0xffu8, 0x00, 0x5a, 0xe4]);
+            let base = vec![x; n];
+            for pos in 0..n {
+                let k = pos.wrapping_sub(c + 2) % 8;
+                if pos < c + 2 || thorough || k == 0 || k == 6 || k == 7 || pos == n - 1 {
+                    emit_fmt_sweep(out, v, &base, pos);
+                }
+            }
         }
         // accepted texts re-format to their own canonical form
         for _ in 0..(if thorough { 40 } else { 6 }) {
@@ -581,6 +620,50 @@ pub fn run_c05(out: &mut Out, rng: &mut Rng, thorough: bool, only: Option<&str>)
                     emit_parse(out, v, "bytes", mode, &s);
                 }
                 emit_parse(out, v, "fromstr", "None", &s);
+            }
+        }
+        // (b2) a valid text wrapped in strippable junk (length changed, and exact length kept)
+        for with_prefix in [true, false] {
+            let canon = hex_of(v, &image(v, rng), with_prefix);
+            for s in wrapped_forms(&canon) {
+                for mode in MODES {
+                    emit_parse(out, v, "with", mode, &s);
+                }
+                emit_parse(out, v, "bytes", "None", &s);
+                emit_parse(out, v, "fromstr", "None", &s);
+            }
+        }
+        // (b3) the prefix position holding every ordered pair over a small alphabet around "T1"
+        {
+            let canon = hex_of(v, &image(v, rng), true);
+            let alpha = b"T1t0I2lA";
+            for &a in alpha.iter() {
+                for &b in alpha.iter() {
+                    let mut s = canon.clone();
+                    s[0] = a;
+                    s[1] = b;
+                    for mode in ["None", "WithVersion"] {
+                        emit_parse(out, v, "bytes", mode, &s);
+                    }
+                    emit_parse(out, v, "fromstr", "None", &s);
+                }
+            }
+        }
+        // (b4) each two-character header field: one character non-hexadecimal x the other over all 22 digits
+        for with_prefix in [true, false] {
+            let canon = hex_of(v, &image(v, rng), with_prefix);
+            let off = if with_prefix { 2 } else { 0 };
+            for field in 0..(v.ck_len() + 2) {
+                for bad_at in 0..2usize {
+                    for &bad in b"Gg:/@`".iter().take(if thorough { 6 } else { 2 }) {
+                        for &d in b"0123456789ABCDEFabcdef".iter() {
+                            let mut s = canon.clone();
+                            s[off + 2 * field + bad_at] = bad;
+                            s[off + 2 * field + 1 - bad_at] = d;
+                            emit_parse(out, v, "bytes", "None", &s);
+                        }
+                    }
+                }
             }
         }
         // (c) two simultaneous faults; (d) near-miss prefixes
@@ -743,6 +826,26 @@ pub fn run_c06(out: &mut Out, rng: &mut Rng, thorough: bool, only: Option<&str>)
         }
         for _ in 0..(if thorough { 40 } else { 6 }) {
             emit_fmt(out, v, &image(v, rng));
+        }
+        // equality: two values that differ in exactly one byte, for EVERY byte position, are different
+        // (== and != in both orders); a value equals its copy and itself
+        let a = image(v, rng);
+        for p in 0..n {
+            let mut b = a.clone();
+            b[p] ^= 1 << rng.below(8);
+            if STRICT && v.hash(&b).is_none() {
+                b = a.clone();
+            }
+            let (ha, hb) = match (v.hash(&a), v.hash(&b)) {
+                (Some(x), Some(y)) => (x, y),
+                _ => continue,
+            };
+            let m = obs(|| (ha.eq_(hb.as_ref()), hb.eq_(ha.as_ref()), ha.clone_box().eq_(ha.as_ref()), ha.eq_(ha.as_ref())));
+            let (e1, e2, e3, e4) = m.v.unwrap_or((false, true, false, false));
+            out.emit(
+                Ev::new("eq").str("v", v.name()).bytes("a1", &a).bytes("b1", &b).boolean("eq", e1).boolean("eq_rev", e2)
+                    .boolean("clone_eq", e3).boolean("self_eq", e4).meas(0, &m.p),
+            );
         }
     });
 }
@@ -959,6 +1062,17 @@ pub fn run_c13(out: &mut Out, rng: &mut Rng, thorough: bool, only: Option<&str>)
                 for r in &forms {
                     emit_cmpstr(out, v, l, r, v.name() == "Normal" && rng.chance(1, 3));
                 }
+            }
+        }
+        // a valid text wrapped in strippable junk, on either side and on both
+        {
+            let img = image(v, rng);
+            let canon = hex_of(v, &img, true);
+            let other = hex_of(v, &image(v, rng), false);
+            for w in wrapped_forms(&canon).into_iter().chain(wrapped_forms(&other).into_iter().take(if thorough { 100 } else { 12 })) {
+                emit_cmpstr(out, v, &w, &canon, false);
+                emit_cmpstr(out, v, &canon, &w, v.name() == "Normal");
+                emit_cmpstr(out, v, &w, &w, false);
             }
         }
         // the pair that attains max_distance, as strings (both orders, both prefix styles)
